@@ -339,6 +339,9 @@ def group_programs_both_ways(ctx: RunCtx) -> BoundedResult:
         P["group-no-batching-n5"] = lambda app, tag: sorted(leaf_of(app, parallel_batch_size=0).parallelize([(tag, i) for i in range(5)]).results)
         for n in ((101, 250) if thorough else (101,)):
             P[f"group-default-batch-n{n}"] = (lambda n: lambda app, tag: sorted(leaf_of(app).parallelize([(tag, i) for i in range(n)]).results))(n)
+        big = lambda ch: "a" * 100_000 + ch + "a" * 100_000        # same length, same head and tail, large enough for the client data store
+        P["group-large-arguments-differing-in-the-middle"] = lambda app, tag: sorted(app.task(vt.g_blob).parallelize([(tag, big("X")), (tag, big("Y")), (tag, big("Z"))]).results)
+        P["two-calls-large-arguments-differing-in-the-middle"] = lambda app, tag: (lambda t: (lambda a, b: [a.result, b.result])(t(tag, big("X")), t(tag, big("Y"))))(app.task(vt.g_blob))
         P["direct-plain"] = lambda app, tag: app.direct_task(max_retries=2, retry_for=(vt.Retriable,))(vt.g_direct)(tag, 5, 2)
         P["direct-parallel-tuples"] = lambda app, tag: app.direct_task(parallel_func=vt.g_fan_tuples, aggregate_func=lambda rs: sorted(rs))(vt.g_direct)(tag, n=4)
         P["direct-parallel-common-args"] = lambda app, tag: app.direct_task(parallel_func=vt.g_fan_common, aggregate_func=lambda rs: sum(rs))(vt.g_direct)(tag, n=7)
@@ -434,5 +437,10 @@ def build(ctx: RunCtx) -> Prop:
                     "(prepare_arguments, distribute_batch_calls) is proved, the collection of their results is bounded only.",
         min_obligations=30,
         # the calls a group is made of: sync mode / unbatched path (prepare_arguments) and batch path (distribute_batch_calls) against one specification
-        parts=[("contracts.c19_groups", ["pynenc.task:prepare_arguments", "pynenc.task:distribute_batch_calls"])],
+        # arguments travel through the client data store on the distributed side only: its reference key must address the whole content
+        # (verified in the C15 module's registry), or two calls with large arguments run with each other's data
+        parts=[("contracts.c19_groups", ["pynenc.task:prepare_arguments", "pynenc.task:distribute_batch_calls"]),
+               ("contracts.c15", ["pynenc.client_data_store.base_client_data_store:_generate_key",
+                                  "pynenc.client_data_store.base_client_data_store:BaseClientDataStore._maybe_store",
+                                  "pynenc.client_data_store.base_client_data_store:BaseClientDataStore.resolve"])],
     )
